@@ -9,6 +9,7 @@ import I18n.Driver.Locale
 import I18n.Driver.PyFmt
 import I18n.Driver.Charset
 import I18n.Driver.Msg
+import I18n.Driver.FmtCheck
 /- Line-protocol driver: `<model> <op> <args…>` per line on stdin, one canonical line per op on stdout. -/
 open I18n.Driver
 
@@ -25,6 +26,7 @@ def step (line : String) : String :=
   | "pyfmt" :: op :: args => PyFmt.handle op args
   | "charset" :: op :: args => Charset.handle op args
   | "msg" :: op :: args => Msg.handle op args
+  | "fmtcheck" :: op :: args => FmtCheck.handle op args
   | _ => "bad-op"
 
 partial def loop (h : IO.FS.Stream) (out : IO.FS.Stream) : IO Unit := do
